@@ -8,6 +8,7 @@ import (
 	"time"
 
 	"github.com/pion/interceptor"
+	"github.com/pion/interceptor/internal/verifhook"
 	"github.com/pion/logging"
 	"github.com/pion/rtcp"
 )
@@ -106,6 +107,7 @@ func (r *ReceiverInterceptor) loop(rtcpWriter interceptor.RTCPWriter) {
 	for {
 		select {
 		case <-ticker.C:
+			verifhook.Gate("report.receiver.tick", r)
 			now := r.now()
 			r.streams.Range(func(_, value any) bool {
 				if stream, ok := value.(*receiverStream); !ok {
